@@ -287,6 +287,9 @@ def family_E(n):
         ("E/unicode_ident", HDR + "gr\u00f6\u00dfe = %d\ndb.Setting = gr\u00f6\u00dfe\n" % n),
         ("E/unicode_comment", HDR + "# \u2603 \U0001F600 snow\ndb.Setting = %d  # \u00e9\u00e8\n" % n),
         ("E/surrogate", HDR + "s = \"\\ud800\"\ndb.Setting = %d\n" % n),
+        ("E/lone_surrogate_string", HDR + "s = \"caf\ud83d\"\ndb.Setting = %d\n" % n),
+        ("E/lone_surrogate_comment", HDR + "db.Setting = %d  # half an emoji: \ude00\n" % n),
+        ("E/lone_surrogate_ident", HDR + "x\udc00y = %d\ndb.Setting = 1\n" % n),
         ("E/lua", "require \"x\"\nlocal a = %d\n" % n),
         ("E/lua_comment", "-- lua\nprint(%d)\n" % n),
         ("E/huge_int", HDR + "db.Setting = 1 << %d\n" % (70 + n)),
@@ -369,6 +372,7 @@ def family_E_modules(n):
         ("E/library_reassign_far", {"lib": HDR + "\n" * 22 + "def init():\n    p = SolarPanel(d1)\n    p = SolarPanel(d2)\n    p.Horizontal = %d\n" % n, "": HDR + "from library import lib\nlib.init()\n"}),
         ("E/library_undefined_call_far", {"lib": HDR + "\n" * 28 + "def init():\n    db.Setting = nofunc(%d)\n" % n, "": HDR + "from library import lib\nlib.init()\n"}),
         ("E/library_break_far", {"lib": HDR + "\n" * 18 + "def init():\n    db.Setting = %d\n\nbreak\n" % n, "": HDR + "from library import lib\nlib.init()\n"}),
+        ("E/library_lone_surrogate", {"lib": HDR + "def init():\n    db.Setting = %d  # \ud800\n" % n, "": HDR + "from library import lib\nlib.init()\n"}),
         ("E/library_unused", {"lib": HDR + "def init():\n    db.Setting = %d\n" % n, "": HDR + "db.Setting = 1\n"}),
         ("E/library_named_main", {"__main__": HDR + "x = %d\n" % n, "": HDR + "db.Setting = 2\n"}),
         ("E/library_weird_name", {"a b-c": HDR + "x = 1\n", "": HDR + "db.Setting = %d\n" % n}),
